@@ -1,7 +1,7 @@
 (* C18 - Navigation and metadata: property theorems only (models: model/C18*.v, proofs: proofs/C18_*.v). *)
 From Coq Require Import ZArith List Bool String.
-Require Import WV.model.C18Bookmarks WV.model.C18Outline WV.model.C18Links WV.model.C18Date WV.model.C18Aabb.
-Require Import WV.proofs.C18_bookmarks WV.proofs.C18_outline WV.proofs.C18_links WV.proofs.C18_date WV.proofs.C18_aabb.
+Require Import WV.model.C18Bookmarks WV.model.C18Outline WV.model.C18Links WV.model.C18Date WV.model.C18Aabb WV.model.C18Href.
+Require Import WV.proofs.C18_bookmarks WV.proofs.C18_outline WV.proofs.C18_links WV.proofs.C18_date WV.proofs.C18_aabb WV.proofs.C18_href.
 From Coq Require Import QArith.
 Import ListNotations.
 Open Scope Z_scope.
@@ -176,3 +176,26 @@ Theorem C18_link_rectangle_without_transform (x y w h s t : Q) :
    rectangle_aabb None x y w h = (x, y, x + w, y + h))%Q.
 Proof. exact (aabb_no_transform x y w h s t). Qed.
 Print Assumptions C18_link_rectangle_without_transform.
+
+(* ---- 6. which links are internal: urls.get_link_attribute (+ iri_to_uri, urllib unquote), on bytes ----
+   spell bs hs = the fragment bs with each byte written raw or as %XX (upper/lower case digits, per hs);
+   spelling_ok: bytes in 0..255, '%' itself never raw.  AUrl doc f = a URL reference whose document part (scheme,
+   host, path, query after url_join) is doc; base = the document part of the document's own URL. *)
+Theorem C18_every_spelling_of_an_anchor_is_internal (bs : list Z) (hs : list how) :
+  (spelling_ok bs hs -> bs <> [] ->
+   (forall base, get_link_attribute base (ABare (spell bs hs)) = LInternal bs) /\
+   (forall doc, get_link_attribute (Some doc) (AUrl doc (spell bs hs)) = LInternal bs))%Z.
+Proof. exact (every_spelling_is_internal bs hs). Qed.
+Print Assumptions C18_every_spelling_of_an_anchor_is_internal.
+
+(* escaping done by iri_to_uri is invisible after unquote: raw and escaped characters name the same anchor *)
+Theorem C18_unquote_after_iri_to_uri (l : list Z) :
+  (Forall (fun b => 0 <= b < 256) l -> unquote (iri_to_uri l) = unquote l)%Z.
+Proof. exact (unquote_iri l). Qed.
+Print Assumptions C18_unquote_after_iri_to_uri.
+
+Theorem C18_other_references_are_external (base : option Z) (doc : Z) (f : list Z) :
+  (base = None \/ f = [] \/ (exists b, base = Some b /\ doc <> b) ->
+   get_link_attribute base (AUrl doc f) = LExternal doc (iri_to_uri f) /\ get_link_attribute base AEmpty = LNone)%Z.
+Proof. exact (other_references_are_external base doc f). Qed.
+Print Assumptions C18_other_references_are_external.
